@@ -563,9 +563,11 @@ func readAnsiInputs(ctx context.Context, msgs chan<- Msg, input io.Reader) error
 loop:
 	for {
 		// Read and block.
-		numBytes, err := input.Read(buf[:])
-		if err != nil {
-			return fmt.Errorf("error reading input: %w", err)
+		// A reader may return the last bytes together with the error: they
+		// are input like any other and are handled before the error is.
+		numBytes, readErr := input.Read(buf[:])
+		if readErr != nil && numBytes == 0 {
+			return fmt.Errorf("error reading input: %w", readErr)
 		}
 		b := buf[:numBytes]
 		if leftOverFromPrevIteration != nil {
@@ -586,6 +588,9 @@ loop:
 			var msg Msg
 			w, msg = detectOneMsg(b[i:], canHaveMoreData)
 			if w == 0 {
+				if readErr != nil {
+					return fmt.Errorf("error reading input: %w", readErr)
+				}
 				// Expecting more bytes beyond the current buffer. Try waiting
 				// for more input.
 				leftOverFromPrevIteration = make([]byte, 0, len(b[i:])+len(buf))
@@ -604,6 +609,9 @@ loop:
 			}
 		}
 		leftOverFromPrevIteration = nil
+		if readErr != nil {
+			return fmt.Errorf("error reading input: %w", readErr)
+		}
 	}
 }
 
